@@ -628,7 +628,7 @@ def replay_search(rec, monitor, limit=200000):
     return None
 
 
-def small_nodes():
+def small_nodes(pair_items=None):
     """a family of small mapping nodes around one attribute 'items' whose value
     is a scalar, a sequence or a mapping of up to two small items (scalars or
     mappings over the keys id / val / x) - the shapes the structural
@@ -666,7 +666,9 @@ def small_nodes():
     values = [sc('s')]
     import itertools
     for n in (0, 1, 2):
-        for combo in itertools.product(items, repeat=n):
+        pool = items if (n < 2 or pair_items is None) else \
+            items[:2] + items[3:3 + pair_items]
+        for combo in itertools.product(pool, repeat=n):
             values.append(sq(list(combo)))
             keys = [sc('a'), sc('b')][:n]
             values.append(mp(list(zip(keys, combo))))
@@ -679,7 +681,7 @@ def small_nodes():
     return out
 
 
-def replay_search_node(rec, monitor, limit=60000):
+def replay_search_node(rec, monitor, limit=60000, pair_items=None):
     """contract-guided bounded search for methods of Node / UnknownNode whose
     other inputs are strings, scalar-union values or booleans"""
     import inspect
@@ -700,7 +702,7 @@ def replay_search_node(rec, monitor, limit=60000):
     pool = {'str': ['items', 'id', 'val', 'x'], 'PV': [None, 'val'],
             'bool': [True, False]}
     n = 0
-    for mk in small_nodes():
+    for mk in small_nodes(pair_items):
         for combo in itertools.product(*[pool[keys[p]] for p in order]):
             n += 1
             if n > limit:
